@@ -241,7 +241,8 @@ def observe_circuit(circuit):
 
 def num_eq(a: float, b: float, rtol: float) -> bool:
     if a == b:
-        return True
+        # the two zeros are different values: they print differently, so a circuit holding one does not serialise to the same text
+        return a != 0 or math.copysign(1.0, a) == math.copysign(1.0, b)
     if math.isinf(a) or math.isinf(b) or math.isnan(a) or math.isnan(b):
         return False
     return abs(a - b) <= rtol * max(abs(a), abs(b))
